@@ -1281,6 +1281,7 @@ class TermCanvas(Canvas):
                 self.modes.reverse_video = flag
             elif mode == 6:
                 self.modes.constrain_scrolling = flag
+                self.is_rotten_cursor = False
                 self.set_term_cursor(0, 0)
             elif mode == 7:
                 self.modes.autowrap = flag
